@@ -20,16 +20,21 @@ pub struct ACase {
     large: bool,
     method: Method,
     content: Content,
+    /// position of the (sparse) sink when the writer starts: offsets beyond 2^32 need 64-bit padding maths
+    #[serde(default)]
+    base: u64,
 }
 
 fn check_aligned(c: &ACase, info: &mut Info) -> Result<(), String> {
-    let mut sink = Cursor::new(Vec::new());
-    let mut w = std::mem::ManuallyDrop::new(ZipWriter::new(&mut sink));
+    use crate::sio::{Shared, SparseFile};
+    use std::io::{Seek, SeekFrom};
+    let sink = Shared::new(SparseFile::at_position(c.base));
+    let mut w = std::mem::ManuallyDrop::new(ZipWriter::new(sink.clone()));
     let pre = Content::Rep { byte: 7, len: c.pre_len };
     w.start_file("pre", Opts::plain(Method::Stored).to_zip()).map_err(|e| format!("harness: {e}"))?;
     w.write_all(&pre.expand()).map_err(|e| format!("harness: {e}"))?;
     // header_start of the aligned entry = 30 + 3 + pre_len
-    let header_start = 33 + c.pre_len as u64;
+    let header_start = c.base + 33 + c.pre_len as u64;
     let fixed = header_start + 30 + if c.large { 20 } else { 0 };
     let mut name_len = c.name_len as u64 % 3000;
     if let (Some(r), true) = (c.target_residue, c.align > 1) {
@@ -78,8 +83,7 @@ fn check_aligned(c: &ACase, info: &mut Info) -> Result<(), String> {
     w.start_file("after", Opts::plain(Method::Deflated).to_zip()).map_err(|e| format!("start_file after: {e}"))?;
     w.write_all(b"following entry").map_err(|e| format!("write: {e}"))?;
     w.finish().map_err(|e| format!("finish: {e}"))?;
-    let bytes = sink.into_inner();
-    let p = parse::parse(&bytes[..], parse::Opts::strict()).map_err(|e| format!("archive with an aligned entry (align={}, large_file={}) is not valid: {e}", c.align, c.large))?;
+    let p = parse::parse(&sink, parse::Opts { lenient: false, allow_leading_gap: c.base > 0, decode_limit: 64 << 20, allow_trailing: false }).map_err(|e| format!("archive with an aligned entry (align={}, large_file={}, writer started at {:#x}) is not valid: {e}", c.align, c.large, c.base))?;
     let e = &p.entries[1];
     if c.align > 1 && e.data_start % c.align as u64 != 0 {
         return Err(format!("entry started with align={} has its data at offset {} (remainder {})", c.align, e.data_start, e.data_start % c.align as u64));
@@ -90,7 +94,9 @@ fn check_aligned(c: &ACase, info: &mut Info) -> Result<(), String> {
     if e.content.as_deref() != Some(&data[..]) {
         return Err("content of the aligned entry does not round-trip (independent parser)".into());
     }
-    let mut za = zip::ZipArchive::new(Cursor::new(&bytes[..])).map_err(|e| format!("reopen: {e}"))?;
+    let mut rd = sink.clone();
+    rd.seek(SeekFrom::Start(0)).map_err(|e| format!("harness: {e}"))?;
+    let mut za = zip::ZipArchive::new(rd).map_err(|e| format!("reopen: {e}"))?;
     let mut f = za.by_index(1).map_err(|e| format!("by_index(1): {e}"))?;
     let mut v = Vec::new();
     f.read_to_end(&mut v).map_err(|e| format!("read: {e}"))?;
@@ -248,7 +254,7 @@ fn check_extra(c: &ECase, info: &mut Info) -> Result<(), String> {
 }
 
 pub fn run(ctx: &mut Ctx) {
-    ctx.rule("aligned: alignment values (quick: 0,1,2,3,4,8,...,32768, 65521, 65535 and random; thorough: ALL 0..=65535) x preceding offsets (preceding entry size, name length; targeted residues so that the padding record lands at 0, 1, ... and next to the 16-bit limit) x large_file x method: on Ok the data offset (independent parser and reader) is a multiple of the alignment, the returned value equals the padding record size, content round-trips, the next entry is intact; alignments <= 32768 must succeed; unrepresentable padding must be refused, never panic. extra: record lists with IDs over reserved (0..31, APPNOTE-registered) and unreserved ranges, sizes 0..65535, truncated tails, shared / split local+central: valid data stored verbatim (local after the writer's own ZIP64 record; central returned by extra_data()), invalid data refused. Non-trivial = padding needed or >=1 record.");
+    ctx.rule("aligned: alignment values (quick: 0,1,2,3,4,8,...,32768, 65521, 65535 and random; thorough: ALL 0..=65535) x preceding offsets (preceding entry size, name length; targeted residues so that the padding record lands at 0, 1, ... and next to the 16-bit limit) x large_file x method x position of the sink when the writer starts (0, around 2^32, up to 2^40; sparse sink): on Ok the data offset (independent parser and reader) is a multiple of the alignment, the returned value equals the padding record size, content round-trips, the next entry is intact; alignments <= 32768 must succeed; unrepresentable padding must be refused, never panic. extra: record lists with IDs over reserved (0..31, APPNOTE-registered) and unreserved ranges, sizes 0..65535, truncated tails, shared / split local+central: valid data stored verbatim (local after the writer's own ZIP64 record; central returned by extra_data()), invalid data refused. Non-trivial = padding needed or >=1 record.");
     let fixed: Vec<u16> = vec![0, 1, 2, 3, 4, 5, 7, 8, 16, 32, 64, 128, 256, 512, 1024, 2048, 4096, 8192, 16384, 32768, 32769, 65521, 65534, 65535];
     let residues: [Option<u16>; 10] = [None, Some(0), Some(1), Some(2), Some(4), Some(5), Some(24), Some(25), Some(3), Some(44)];
     if ctx.tier == crate::engine::Tier::Thorough {
@@ -258,18 +264,18 @@ pub fn run(ctx: &mut Ctx) {
             &|k| {
                 let align = (k / 8) as u16;
                 let j = k % 8;
-                ACase { align, pre_len: [0u32, 1, 4093, 70001][(j % 4) as usize], name_len: (k % 97) as u16, target_residue: None, large: j >= 4, method: Method::Stored, content: Content::Bytes(b"aligned payload".to_vec()) }
+                ACase { align, pre_len: [0u32, 1, 4093, 70001][(j % 4) as usize], name_len: (k % 97) as u16, target_residue: None, large: j >= 4, method: Method::Stored, content: Content::Bytes(b"aligned payload".to_vec()), base: if k % 3 == 0 { 0 } else if k % 3 == 1 { (1u64 << 32) + 12345 } else { (5u64 << 32) - 7 } }
             },
             &|c: &ACase, info: &mut Info| Verdict::from_result(check_aligned(c, info)),
         );
     }
-    let total = (fixed.len() * residues.len() * 2) as u64;
+    let total = (fixed.len() * residues.len() * 2 * 4) as u64;
     ctx.enumerate::<ACase>(
         "aligned_grid",
         total,
         &|k| {
             let k = k as usize;
-            ACase { align: fixed[k % fixed.len()], pre_len: (k as u32 * 37) % 5000, name_len: (k % 50) as u16, target_residue: residues[(k / fixed.len()) % residues.len()], large: k / (fixed.len() * residues.len()) == 1, method: Method::Stored, content: Content::Bytes(b"aligned payload".to_vec()) }
+            ACase { align: fixed[k % fixed.len()], pre_len: (k as u32 * 37) % 5000, name_len: (k % 50) as u16, target_residue: residues[(k / fixed.len()) % residues.len()], large: (k / (fixed.len() * residues.len())) % 2 == 1, method: Method::Stored, content: Content::Bytes(b"aligned payload".to_vec()), base: [0u64, 0xFFFF_FFFF - 40, (1 << 32) + 1, (7 << 32) + 0x1234_5677][k / (fixed.len() * residues.len() * 2)] }
         },
         &|c: &ACase, info: &mut Info| Verdict::from_result(check_aligned(c, info)),
     );
@@ -286,8 +292,9 @@ pub fn run(ctx: &mut Ctx) {
                 any::<bool>(),
                 prop_oneof![Just(Method::Stored), Just(Method::Deflated), Just(Method::Zstd)],
                 crate::refzip::content::content(5000),
+                prop_oneof![3 => Just(0u64), 1 => (0xFFFF_0000u64..0x1_0001_0000), 1 => (1u64 << 32..1u64 << 40)],
             )
-                .prop_map(|(align, pre_len, name_len, target_residue, large, method, content)| ACase { align, pre_len, name_len, target_residue, large, method, content })
+                .prop_map(|(align, pre_len, name_len, target_residue, large, method, content, base)| ACase { align, pre_len, name_len, target_residue, large, method, content, base })
                 .boxed()
         },
         &|c: &ACase, info: &mut Info| Verdict::from_result(check_aligned(c, info)),
